@@ -297,29 +297,28 @@ func checkC10(p *load.Program, r *kit.Report) {
 	if ph := fn(p, r, "GUARD-DOM", H, "Repository.ProcessHeader"); ph != nil {
 		cl := kit.CallsTo(ph, H+".Repository.clean")
 		bad := ""
-		if len(cl) != 1 {
-			bad = "expected one automatic clean call"
-		} else {
-			lin := kit.NewLin(ph)
-			gs := kit.FindGuards(ph, func(c ssa.Value) (bool, bool) {
-				b, ok := c.(*ssa.BinOp)
-				if !ok || (b.Op != token.EQL && b.Op != token.NEQ) {
-					return false, false
-				}
-				rem, ok := b.X.(*ssa.BinOp)
-				if !ok || rem.Op != token.REM {
-					return false, false
-				}
-				if k, ok := kit.ConstInt(rem.Y); !ok || k != 10000 {
-					return false, false
-				}
-				if z, ok := kit.ConstInt(b.Y); !ok || z != 0 {
-					return false, false
-				}
-				_ = lin
-				return true, b.Op == token.EQL
-			})
-			if ok, _ := kit.DominatedByEdges(ph, cl[0], edgesOf(gs, true), nil, p.Pos); !ok || len(gs) == 0 {
+		if len(cl) == 0 {
+			bad = "no automatic clean call"
+		}
+		gs := kit.FindGuards(ph, func(c ssa.Value) (bool, bool) {
+			b, ok := c.(*ssa.BinOp)
+			if !ok || (b.Op != token.EQL && b.Op != token.NEQ) {
+				return false, false
+			}
+			rem, ok := b.X.(*ssa.BinOp)
+			if !ok || rem.Op != token.REM {
+				return false, false
+			}
+			if k, ok := kit.ConstInt(rem.Y); !ok || k != 10000 {
+				return false, false
+			}
+			if z, ok := kit.ConstInt(b.Y); !ok || z != 0 {
+				return false, false
+			}
+			return true, b.Op == token.EQL
+		})
+		for _, c := range cl {
+			if ok, _ := kit.DominatedByEdges(ph, c, edgesOf(gs, true), nil, p.Pos); !ok || len(gs) == 0 {
 				bad = "automatic clean is not confined to Height()%10000 == 0"
 			}
 		}
@@ -327,23 +326,25 @@ func checkC10(p *load.Program, r *kit.Report) {
 		// clean rebuilds every branch as a new object and replaces repo.branches/repo.longest: the
 		// *Branch values ProcessHeader looked up before it are stale afterwards, so nothing may be
 		// added to a branch, and the tip may not be stored, after the automatic clean
-		if len(cl) == 1 {
+		if len(cl) > 0 {
 			badA := ""
-			rr := kit.Reach(ph, kit.After(cl[0].(ssa.Instruction)), kit.Opts{})
-			kit.AllInstrs(ph, func(in ssa.Instruction) {
-				if !rr.Has(in) || badA != "" {
-					return
-				}
-				if c, ok := in.(ssa.CallInstruction); ok {
-					switch kit.CallID(c) {
-					case H + ".Branch.Add", H + ".NewBranch":
-						badA = kit.ShortID(kit.CallID(c)) + " at " + posOf(p, in) + " runs after the automatic clean: the header is added to a branch object that clean has just replaced (the tip stays one short and the next header is an orphan)"
+			for _, c := range cl {
+				rr := kit.Reach(ph, kit.After(c.(ssa.Instruction)), kit.Opts{})
+				kit.AllInstrs(ph, func(in ssa.Instruction) {
+					if !rr.Has(in) || badA != "" {
+						return
 					}
-				}
-			})
-			for _, w := range kit.DirectWrites(ph) {
-				if (w.Field == longestF || w.Field == branchesF) && rr.Has(w.Instr) && badA == "" {
-					badA = "repo." + w.Field.Name() + " is stored at " + posOf(p, w.Instr) + " after the automatic clean replaced it"
+					if cc, ok := in.(ssa.CallInstruction); ok {
+						switch kit.CallID(cc) {
+						case H + ".Branch.Add", H + ".NewBranch":
+							badA = kit.ShortID(kit.CallID(cc)) + " at " + posOf(p, in) + " runs after the automatic clean: the header is added to a branch object that clean has just replaced (the tip stays one short and the next header is an orphan)"
+						}
+					}
+				})
+				for _, w := range kit.DirectWrites(ph) {
+					if (w.Field == longestF || w.Field == branchesF) && rr.Has(w.Instr) && badA == "" {
+						badA = "repo." + w.Field.Name() + " is stored at " + posOf(p, w.Instr) + " after the automatic clean replaced it"
+					}
 				}
 			}
 			r.Check(badA == "", "ORDER", "ProcessHeader/auto-clean-last", posOf(p, cl[0]), "no branch mutation or tip store follows the automatic clean", badA)
